@@ -55,6 +55,8 @@ pub mod c27;
 #[cfg(feature = "full")]
 pub mod c28;
 #[cfg(feature = "full")]
+pub mod c29;
+#[cfg(feature = "full")]
 pub mod c30;
 #[cfg(feature = "full")]
 pub mod c31;
@@ -116,6 +118,7 @@ pub fn all() -> Vec<Property> {
         v.push(Property { id: "C26", level: "exploration", build: c26::build });
         v.push(Property { id: "C27", level: "exploration", build: c27::build });
         v.push(Property { id: "C28", level: "exploration", build: c28::build });
+        v.push(Property { id: "C29", level: "fault_enumeration", build: c29::build });
         v.push(Property { id: "C30", level: "exploration", build: c30::build });
         v.push(Property { id: "C31", level: "exploration", build: c31::build });
         v.push(Property { id: "C32", level: "exploration", build: c32::build });
